@@ -84,9 +84,38 @@ class _Ev(Evaluator):
             return e
         return e
 
+    def _deep_alias(self, e: ast.AST) -> ast.AST:
+        """`e` with every local that stands for an object (run.alias) replaced by what it stands for, at any depth:
+        `memory.get_address_range().start` with `memory = self.state.memory`."""
+        al = self.run.alias
+        if not al or isinstance(e, ast.Name):
+            return e
+        hit = [n for n in ast.walk(e) if isinstance(n, ast.Name) and isinstance(n.ctx, ast.Load) and n.id in al and n.id not in self.run.env]
+        if not hit:
+            return e
+        import copy as _copy
+        outer = self
+
+        class T(ast.NodeTransformer):
+            def visit_Name(self, n):
+                if isinstance(n.ctx, ast.Load) and n.id in al and n.id not in outer.run.env:
+                    r = outer.resolve_alias(n)
+                    if r is not n and not isinstance(r, ast.IfExp):
+                        return _copy.deepcopy(r)
+                return n
+        return T().visit(_copy.deepcopy(e))
+
     def ev(self, e: ast.AST) -> Form:
         if isinstance(e, ast.Name) and e.id in self.run.env:
             return self.run.env[e.id]
+        if not getattr(e, "_aliased", False):
+            e2 = self._deep_alias(e)
+            if e2 is not e:
+                try:
+                    e2._aliased = True  # type: ignore[attr-defined]
+                except Exception:
+                    pass
+                e = e2
         if isinstance(e, ast.Name) and e.id in self.run.alias:
             return self.ev(self.resolve_alias(e))
         if isinstance(e, ast.Call) and (isinstance(e.func, ast.IfExp) or (isinstance(e.func, ast.Name) and e.func.id in self.run.alias and e.func.id not in self.run.env)):
